@@ -21,6 +21,16 @@ CLAIMED = {
     "C07": ("real solve() aggregation (Domain attribution, Subsystem / total / average rows, energy) on proxies compared cell by cell with a spec "
             "interpreter over the harness's own tree description, for multi-source and mux shapes in several insertion orders, with phases.",
             "Floats as reals; contract shims; efficiency cells only for non-overloaded states; shape catalogue bound.", "4/C07"),
+    "C09": ("real _solv_get_warns/_get_warns/_get_limits on proxies: per key 'flagged <=> documented-applicable and outside [min,max]' (magnitude, tp signed) "
+            "with symbolic limits and quantities, defaults, phase-silence; system level per-row cells and Subsystem/total roll-up with the real warning code.",
+            "Floats as reals; supplied keys 1 (quick) / 2 (thorough) at a time; other quantities assumed inside default limits.", "4/C09"),
+    "C10": ("real table validation, six flattening loops and _Interp1d/_Interp2d (manual clamping cascade) on proxies: grid exactness, linearity along "
+            "grid lines, cell envelope, clamping to the nearest edge, never NaN, flat table == constant in every law.",
+            "numpy.interp / scipy LinearNDInterpolator are contract models, differentially validated against the real libraries on every run; "
+            "table sizes bounded; vi rows increasing.", "4/C10"),
+    "C11": ("all 11 constructors on proxies with arguments of any sign: ValueError <=> documented validity predicate fails; stored / evaluated "
+            "parameters are magnitudes; passive elements never amplify for any accepted arguments; finite concrete panel for malformed arguments.",
+            "Floats as reals; table sizes bounded.", "4/C11"),
     "C20": ("trace_res/plane_res executed on proxies; the closed form and every stated algebraic law (proportionality, inverse, affine, symmetry, "
             "trace==plane) is an exact-NRA query proved unsat for all positive dimensions.",
             "Floats modelled as reals (rounding/overflow outside the claim).", "4/C20"),
